@@ -291,7 +291,10 @@ def semlock_forgets_ownership_in_a_forked_child(ctx, rule):
     cfg = fi.cfg
     reg = [(n, c) for (n, c) in q.calls(fi, lambda t: t.endswith('register_after_fork'))]
     q.need(reg, 'SemLock.__init__ registers no after-fork hook')
-    hooks = [ch for name, ch in fi.children.items()
+    # the hook: a function nested in __init__, or a function of the module, that calls <obj>._semlock._after_fork()
+    cands = list(fi.children.values()) + [f for qn, f in m.funcs.items()
+                                          if f.module is fi.module and f.cls is None and f.parent is None]
+    hooks = [ch for ch in cands
              if any(isinstance(x, ast.Call) and isinstance(x.func, ast.Attribute) and x.func.attr == '_after_fork'
                     for x in ast.walk(ch.node))]
     ok = bool(hooks) and all(len(c.args) == 2 and ast.unparse(c.args[0]) == 'self' and
